@@ -441,7 +441,7 @@ def run_long(ctx, cov):
             lc["kinds"][k] = lc["kinds"].get(k, 0) + 1
     lens = [len(s["keys"]) for s in scns]
     lc.update(inputs=n, bytes_min=min(lens), bytes_max=max(lens))
-    if lc["bytes_min"] > 300 or lc["bytes_max"] < 1100 or lc["bytes_max"] > 1300:
+    if lc["bytes_min"] > 300 or lc["bytes_max"] < 1100 or lc["bytes_max"] > 1300:   # (the generated inputs; the fixed very long ones come below)
         raise vlib.Undecided("long inputs: lengths %d..%d do not span 200..1200" % (lc["bytes_min"], lc["bytes_max"]))
     for b in range(1, 5):
         for (ln, k) in STRADDLES:
@@ -464,6 +464,12 @@ def run_long(ctx, cov):
         data += b"\r"
     scns.append(dict(id=len(scns) + 1, keys=list(data), modes=LONG_MODES, long=True))
     lc["many_statement_inputs"] = 1
+    # statements longer than any line buffer an implementation may have: a literal of 4 200 and one of 9 000 characters,
+    # each followed by further statements (a statement cut short would swallow them)
+    for big in (4200, 9000):
+        data = ("a '" + "x" * big + " ;e' ;\ra ;\r'" + "y" * (big // 2) + "' a ;a ;\r").encode()
+        scns.append(dict(id=len(scns) + 1, keys=list(data), modes=LONG_MODES, long=True))
+    lc["very_long_statement_inputs"] = 2
     n = len(scns)
 
     d = ctx.sub("c20-long")
